@@ -5,7 +5,7 @@
    every conjunct can fail, and a non-vacuity example. *)
 From Coq Require Import String Ascii ZArith NArith Arith PeanoNat Lia List Bool Relations.
 From Typify Require Import Base.Json IR.TypeIR Algo.Heck Algo.HasImpl Algo.RustStatic.
-From Typify Require Algo.Sanitize Algo.Cycles Algo.Defaults Algo.Value Algo.Emit.
+From Typify Require Algo.Sanitize Algo.Cycles Algo.Defaults Algo.Value Algo.Emit Algo.SettingsModel.
 From Typify Require Proofs.EmitProofs Proofs.SanitizeProofs Proofs.CyclesProofs Proofs.CyclesSpecProofs.
 From Typify Require Props.C06 Props.C07 Props.C08 Props.C19.
 Import ListNotations.
@@ -240,6 +240,64 @@ Proof.
   rewrite forallb_forall in H. specialize (H p Hp). rewrite Hs in H. exact H.
 Qed.
 
+(* ---- skip_serializing_if path vs field type ---- *)
+Lemma skip_path_sound : forall T, skip_path_ok T = true ->
+  forall d, In d (named_dets T) -> forall np, In np (props_of_det d) -> forall p, In p (snd np) ->
+  skip_path_prop_ok T p = true.
+Proof.
+  intros T H d Hd np Hnp p Hp. unfold skip_path_ok in H. rewrite forallb_forall in H. specialize (H d Hd).
+  rewrite forallb_forall in H. specialize (H np Hnp). rewrite forallb_forall in H. exact (H p Hp).
+Qed.
+
+Lemma type_head_app : forall (m r : ustring), ~ In 60 m -> type_head (m ++ 60 :: r)%list = m.
+Proof.
+  induction m as [|c m IH]; intros r H; simpl.
+  - reflexivity.
+  - destruct (c =? 60) eqn:E.
+    + apply N.eqb_eq in E. exfalso. apply H. left. exact E.
+    + f_equal. apply IH. intro Hin. apply H. right. exact Hin.
+Qed.
+
+Lemma uprefix_app_both : forall (a b c : ustring), uprefix (a ++ b)%list (a ++ c)%list = uprefix b c.
+Proof. induction a as [|x a IH]; intros b c; simpl; [reflexivity|]. rewrite N.eqb_refl. simpl. apply IH. Qed.
+
+(* the two sites agree on every optional map member (the `::serde_json::Map` test is the same two-part test in
+   both), provided the configured map path has no generic arguments of its own *)
+Lemma type_ident_map_step : forall T f i k v, get_det T i = Some (DMap k v) ->
+  SettingsModel.type_ident T (S f) i =
+  match get_det T k, get_det T v with
+  | None, _ | _, None => None
+  | _, _ =>
+      if SettingsModel.is_json_map T k v then Some SettingsModel.json_map_ty
+      else match SettingsModel.type_ident T f k, SettingsModel.type_ident T f v with
+           | Some a, Some b => Some (SettingsModel.map_path T ++ Emit.u "<" ++ a ++ Emit.u "," ++ b ++ Emit.u ">")%list
+           | _, _ => None
+           end
+  end.
+Proof. intros T f i k v H. simpl. rewrite H. reflexivity. Qed.
+
+Theorem skip_path_map_coherent : forall T p k v ty,
+  get_det T (p_ty p) = Some (DMap k v) ->
+  SettingsModel.type_ident T (fuel_of T) (p_ty p) = Some ty ->
+  ~ In 60 (SettingsModel.map_path T) ->
+  skip_path_prop_ok T p = true.
+Proof.
+  intros T p k v ty Hg Hty Hm. unfold skip_path_prop_ok, SettingsModel.skip_path, SettingsModel.unbox, unboxed_id.
+  rewrite Hg. destruct (p_state p); try reflexivity.
+  rewrite Hty. unfold fuel_of in Hty. rewrite (type_ident_map_step _ _ _ _ _ Hg) in Hty.
+  destruct (get_det T k) as [dk|]; [|discriminate Hty].
+  destruct (get_det T v) as [dv|]; [|discriminate Hty].
+  destruct (SettingsModel.is_json_map T k v).
+  - inversion Hty; subst ty. vm_compute. reflexivity.
+  - destruct (SettingsModel.type_ident T (S (length (sp_entries T))) k) as [a|]; [|discriminate Hty].
+    destruct (SettingsModel.type_ident T (S (length (sp_entries T))) v) as [b|]; [|discriminate Hty].
+    inversion Hty; subst ty.
+    destruct (SettingsModel.map_path T ++ Emit.u "::is_empty")%list eqn:E; [reflexivity|]. rewrite <- E.
+    change (Emit.u "<") with [60]. simpl app.
+    rewrite (type_head_app (SettingsModel.map_path T) _ Hm).
+    rewrite uprefix_app_both. vm_compute. reflexivity.
+Qed.
+
 Lemma bounds_ok_array : forall T f i t n, get_det T i = Some (DArray t n) ->
   bounds_ok T (S f) i = true -> n <= 32.
 Proof.
@@ -364,7 +422,7 @@ Proof. intros. unfold wf_report, wf_module. apply filter_negb_nil. Qed.
    recorded finding, or a condition of the IR the converter (not modelled) is responsible for *)
 Definition residual_conjuncts : list conjunct :=
   [CModnames; CDefaultFns; CUntaggedSimple; CFromVariants; CDerefCycle; CTryFromString;
-   CAcyclic; CDeriveBounds; CSerdeRules; CSerdeDefault; CDefaults; CPreludeDefault; CPreludeVec;
+   CAcyclic; CDeriveBounds; CSerdeRules; CSerdeDefault; CSkipPath; CDefaults; CPreludeDefault; CPreludeVec;
    CPreludeResult].
 
 (* C01_wf_from_parts: the judgment follows from
@@ -458,6 +516,11 @@ Definition witness (c : conjunct) : space :=
       sp false (base ++ [(3, DStruct (us "P") None [mkProp (us "n") RNone POptional 4] false);
                          (4, DInteger (us "::std::num::NonZeroU32"))])
   | CDefaults => sp false (base ++ [(3, DStruct (us "P") None [mkProp (us "n") RNone (PDefault JNull) 4] false); (4, DUnit)])
+  | CSkipPath =>
+      (* a configured map path with generic arguments of its own: `M<X>::is_empty` is not a function of `M<X><K, V>` *)
+      mkSpace (map (fun ie => (fst ie, mkEntry (snd ie) []))
+                   (base ++ [(5, DMap 1 2); (3, DStruct (us "P") None [mkProp (us "m") RNone POptional 5] false)]))
+              100 (mkSettings None [] false (us "M<X>")) false false false false []
   | CDefaultTuple1 =>
       sp false (base ++ [(3, DEnum (us "E") None TagUntagged [mkVariant (us "a") (us "A") (VTuple [2])] false []);
                          (4, DStruct (us "P") None [mkProp (us "p") RNone (PDefault (JArr [JInt (3)%Z])) 3] false)])
